@@ -81,7 +81,9 @@ def build_gofacts():
 def regen_facts():
     """Translator: /repo source -> coq/theories/Gen/SourceFacts.v (written only when changed)."""
     exe = os.path.join(BUILD, "gofacts")
-    if not os.path.exists(exe):
+    gdir = os.path.join(VERIF, "tools", "gofacts")
+    newest = max(os.path.getmtime(os.path.join(gdir, n)) for n in os.listdir(gdir))
+    if not os.path.exists(exe) or os.path.getmtime(exe) < newest:
         build_gofacts()
     rc, out = sh([exe, REPO], timeout=120)
     if rc != 0:
@@ -471,6 +473,7 @@ class Check:
         self.cov.update(evaluations=len(outs), distinct_nontrivial=len(keys), rule=m.RULE,
                         traces_validated_against_impl=len(outs) - len(mism),
                         correspondence_mismatches=len(mism), spec_violations_raw=len(viol),
+                        mismatch_indices=mism[:20], violation_indices=viol[:20],
                         samples=[outs[i] for i in sorted(set([0, len(outs) // 2, len(outs) - 1])) if outs][:3],
                         input_distribution=m.distribution(outs) if hasattr(m, "distribution") else {})
         known = known_findings(self.pid)
